@@ -77,7 +77,25 @@ impl Tracker {
 fn serial_program(rng: &mut Rng, org: u16, n: usize) -> Vec<u8> {
   let mut a = Asm::new(org);
   for _ in 0..n {
-    match rng.below(5) {
+    match rng.below(8) {
+      5 => {
+        // a 16-bit store across SB/SC: LD SP,v ; LD (0xFF01),SP ; LD SP,0xFFFE
+        a.b(&[0x31, rng.u8(), rng.u8(), 0x08, 0x01, 0xff, 0x31, 0xfe, 0xff]);
+      }
+      6 => {
+        // a push onto SC/SB: LD SP,0xFF03 ; LD BC,v ; PUSH BC ; LD SP,0xFFFE
+        a.b(&[0x31, 0x03, 0xff, 0x01, rng.u8(), rng.u8(), 0xc5, 0x31, 0xfe, 0xff]);
+      }
+      7 => {
+        // read-modify-write of SC through (HL): SET 7 / RES 7 / BIT 7 / INC
+        a.ld_hl(0xff02);
+        match rng.below(4) {
+          0 => a.b(&[0xcb, 0xfe]),
+          1 => a.b(&[0xcb, 0xbe]),
+          2 => a.b(&[0xcb, 0x7e]),
+          _ => a.b(&[0x34]),
+        }
+      }
       0 => {
         a.ld_a(rng.u8());
         a.ldh_to(0x01);
